@@ -326,6 +326,10 @@ func H_C01_tmpl() {
 
 
 var c02Templates = []diffTmpl{
+	// a tail call through __call with a fixed argument list from a frame that used higher registers before
+	{"local obj = setmetatable({}, {__call = function(self, ...) return select('#', ...), ... end}); local function f(a, b) local t = {a, b, 7, 8, 9}; local u, v, w = 1, 2, 3; return obj(a, b) end; emit(f(x, y)); local function g(a) local t = {a, 1, 2, 3}; return obj() end; emit(g(z)); local function h(...) local t = {1, 2, 3, 4}; return obj(...) end; emit(h(x, y, z))", "num"},
+	// a parenthesised host call as the whole return list yields exactly one value
+	{"local function one() return (select(2, x, y, z)) end; emit(one()); emit(select('#', one())); local t = {one()}; emit(#t, t[1], t[2]); local function two(...) return (unpack({...})) end; emit(two(x, y)); emit(select('#', two(x, y, z))); local a, b, c = one(); emit(a, b, c); local function three() return (rawget({k = x}, 'k')) end; emit(three(), select('#', three()))", "num"},
 	// method sugar with an open last argument (call or vararg): every value is passed
 	{"local o = {}; function o:m(...) return select('#', ...), ... end; local function f() return x, y end; emit(o:m(f())); emit(o:m(z, f())); local function g(...) return o:m(...) end; emit(g(x, y, z)); emit(o:m((f()))); local function h(...) return o:m(z, ...) end; emit(h()); emit(h(x))", "num"},
 	// parameters: missing are nil, surplus dropped or collected
@@ -387,7 +391,7 @@ var c02Templates = []diffTmpl{
 
 // C02.tmpl — call and return adjustment, whole pipeline against R-lua.
 //
-//verif:harness prop=C02 tier=quick bounds="40 call templates: 0..3 fixed parameters x vararg x 0..4 arguments x result contexts (statement, parenthesised, middle, last in argument list / return / constructor / assignment), Lua and Go callees, method sugar, __call, tail calls incl. depth 60 > CallStackSize 32; inputs 3 symbolic float64 (or 32-bit ints)"
+//verif:harness prop=C02 tier=quick bounds="42 call templates: 0..3 fixed parameters x vararg x 0..4 arguments x result contexts (statement, parenthesised, middle, last in argument list / return / constructor / assignment), Lua and Go callees, method sugar, __call, tail calls incl. depth 60 > CallStackSize 32; inputs 3 symbolic float64 (or 32-bit ints)"
 func H_C02_tmpl() {
 	t := c02Templates[VChoice(len(c02Templates))]
 	diffRun(t.src, t.src, c01Inputs(t.kind), Options{CallStackSize: 32, RegistrySize: 256})
